@@ -14,7 +14,7 @@
 (* Properties served: C01 (responses), C03 (write gate), C08, C09, C10,    *)
 (* C06 (entity add/remove part), C14 (callbacks).                          *)
 (***************************************************************************)
-EXTENDS Naturals, Integers, Sequences, FiniteSets, TLC
+EXTENDS Naturals, Integers, Sequences, FiniteSets, TLC, SequencesExt
 
 CONSTANTS Peers,            \* set of peer names (strings), e.g. {"p1","p2"}
           KnownDeviations,  \* names of deviations accepted as known findings
@@ -62,11 +62,13 @@ RF == [ nm  |-> [ent |-> "0", type |-> "NodeManagement",      role |-> "special"
         c12 |-> [ent |-> "1", type |-> "LoadControl",         role |-> "client"],
         c13 |-> [ent |-> "1", type |-> "DeviceConfiguration", role |-> "client"],
         s14 |-> [ent |-> "1", type |-> "LoadControl",         role |-> "server"],
-        c21 |-> [ent |-> "2", type |-> "LoadControl",         role |-> "client"] ]
+        c21 |-> [ent |-> "2", type |-> "LoadControl",         role |-> "client"],
+        n11 |-> [ent |-> "1.1", type |-> "LoadControl",       role |-> "client"] ]   \* nested entity [1,1], feature 1
 RemoteNames == DOMAIN RF
 RemoteUnknown == {"x19", "x91"}
-REnts == {"0", "1", "2"}
-AnnEnts == {"1", "2"}               \* entities that can be added / removed by notifications
+REnts == {"0", "1", "2", "1.1"}
+AnnEnts == {"1", "2"}               \* entities that the inputs entadd / entrem add / remove
+CatFeats(e) == {f \in RemoteNames \ {"nm"} : RF[f].ent = e}      \* catalogue features of entity e
 
 Vals == 1..MaxVal
 
@@ -76,6 +78,8 @@ Vals == 1..MaxVal
 InitSt == [ conn  |-> {},                          \* peers with a connection (SetupRemoteDevice)
             addr  |-> {},                          \* peers whose device address is known (discovery reply seen)
             known |-> [p \in Peers |-> {}],         \* remote entities known per peer
+            feats |-> [p \in Peers |-> {}],         \* remote features known per peer: [f, v] (v = announced version:
+                                                    \* description and operations), without the node management feature
             subs  |-> {},                           \* [p, c, s]  server-side subscription registry
             binds |-> {},                           \* [p, c, s]  server-side binding registry
             csub  |-> {},                           \* [k, p, r]  client-side subscription bookkeeping
@@ -89,11 +93,14 @@ InitSt == [ conn  |-> {},                          \* peers with a connection (S
 
 Discovered(st, p) == p \in st.conn /\ p \in st.addr
 \* the device address of a peer is known after its first discovery reply
-RKnown(st, p, c)  == c \in RemoteNames /\ p \in st.conn /\ RF[c].ent \in st.known[p]
+RKnown(st, p, c)  == /\ c \in RemoteNames /\ p \in st.conn
+                     /\ IF c = "nm" THEN "0" \in st.known[p] ELSE \E x \in st.feats[p] : x.f = c
 
 TypeOK(st) ==
     /\ st.conn \subseteq Peers /\ st.addr \subseteq st.conn
     /\ \A p \in Peers : st.known[p] \subseteq REnts
+    /\ \A p \in Peers : \A x \in st.feats[p] : x.f \in RemoteNames /\ RF[x.f].ent \in st.known[p]
+    /\ \A p \in Peers : \A x, y \in st.feats[p] : x.f = y.f => x = y
     /\ \A e \in st.subs \cup st.binds : e.p \in Peers /\ e.c \in RemoteNames /\ e.s \in LocalNames
     /\ \A e \in st.csub \cup st.cbind : e.k \in LocalNames /\ e.p \in Peers /\ e.r \in RemoteNames
 
@@ -130,33 +137,57 @@ ConnectOut(st, a) ==
     LET p == a.p IN
     { Outcome([st EXCEPT !.conn = @ \cup {p}, !.known[p] = {"0"}], NoOut, {}, "ok", Ideal) }
 
-\* discovery reply announcing the entities a.ents (always with "0")
-DiscoverOut(st, a) ==
-    LET p == a.p
-        ann == a.ents \cup {"0"}
-        new == ann \ st.known[p]
-    IN  IF p \notin st.conn THEN { Outcome(st, NoOut, {}, "ok", Ideal) }
-        ELSE { Outcome([st EXCEPT !.known[p] = @ \cup ann, !.addr = @ \cup {p},
-                                   !.rdata[p] = IF "1" \in ann THEN 0 ELSE @,     \* (re)announced entities get fresh features
-                                   !.csub = @ \cup {[k |-> "NM", p |-> p, r |-> "nm"]}],
-                       OutTo(p, Ack(a, "NM", "nm")),
-                       {Ev("dev", "add", p, "", "", "")} \cup {Ev("ent", "add", p, e, "", "") : e \in new},
-                       "ok", Ideal) }
-
 OfPeer(set, p)      == {e \in set : e.p = p}
 OfPeerEnt(set, p, e) == {x \in set : x.p = p /\ RF[x.c].ent = e}
 COfPeerEnt(set, p, e) == {x \in set : x.p = p /\ RF[x.r].ent = e}
 RemEvents(t, set)   == {Ev(t, "remove", x.p, "", x.c, x.s) : x \in set}
+\* cascade removals (entity removed, device disconnected) publish one event per entry; the event names the client
+\* feature only if it is still announced (an entity re-announced with fewer features keeps the entries of the
+\* features it no longer lists; their removal event then carries no feature) - follows the code, no property decides it
+RemEventsSt(st, t, set) == {Ev(t, "remove", x.p, "", IF RKnown(st, x.p, x.c) THEN x.c ELSE "nil", x.s) : x \in set}
+
+\* entity e of peer p (re)announced with the features fs in version v: the entity's features are replaced
+\* (fresh feature objects: cached data of the old ones is gone)
+SetEnt(st, p, e, fs, v) ==
+    [st EXCEPT !.known[p] = @ \cup {e},
+               !.feats[p] = {x \in @ : RF[x.f].ent # e} \cup {[f |-> f, v |-> v] : f \in fs},
+               !.rdata[p] = IF e = "1" THEN 0 ELSE @]
+\* entity e of peer p removed: its features, and exactly the registry entries and client-side references of that entity
+DropEnt(st, p, e) ==
+    [st EXCEPT !.known[p] = @ \ {e},
+               !.feats[p] = {x \in @ : RF[x.f].ent # e},
+               !.rdata[p] = IF e = "1" THEN 0 ELSE @,
+               !.subs = @ \ OfPeerEnt(st.subs, p, e), !.binds = @ \ OfPeerEnt(st.binds, p, e),
+               !.csub = @ \ COfPeerEnt(st.csub, p, e), !.cbind = @ \ COfPeerEnt(st.cbind, p, e)]
+DropEvents(st, p, e) == {Ev("ent", "remove", p, e, "", "")} \cup RemEventsSt(st, "sub", OfPeerEnt(st.subs, p, e))
+                           \cup RemEventsSt(st, "bind", OfPeerEnt(st.binds, p, e))
+
+RECURSIVE SetEnts(_, _, _)
+SetEnts(st, p, es) == IF es = {} THEN st
+                      ELSE LET e == CHOOSE x \in es : TRUE IN SetEnts(SetEnt(st, p, e, CatFeats(e), 1), p, es \ {e})
+
+\* discovery reply announcing the entities a.ents (always with "0") with all their catalogue features, version 1
+DiscoverOut(st, a) ==
+    LET p == a.p
+        ann == a.ents \cup {"0"}
+        new == ann \ st.known[p]
+        st1 == SetEnts(st, p, ann)
+    IN  IF p \notin st.conn THEN { Outcome(st, NoOut, {}, "ok", Ideal) }
+        ELSE { Outcome([st1 EXCEPT !.addr = @ \cup {p},
+                                    !.csub = @ \cup {[k |-> "NM", p |-> p, r |-> "nm"]}],
+                       OutTo(p, Ack(a, "NM", "nm")),
+                       {Ev("dev", "add", p, "", "", "")} \cup {Ev("ent", "add", p, e, "", "") : e \in new},
+                       "ok", Ideal) }
 
 DisconnectOut(st, a) ==
     LET p == a.p IN
     IF p \notin st.conn
     THEN { Outcome(st, NoOut, {Ev("dev", "remove", p, "", "", "")}, "ok", Ideal) }
-    ELSE { Outcome([st EXCEPT !.conn = @ \ {p}, !.addr = @ \ {p}, !.known[p] = {}, !.rdata[p] = 0,
+    ELSE { Outcome([st EXCEPT !.conn = @ \ {p}, !.addr = @ \ {p}, !.known[p] = {}, !.feats[p] = {}, !.rdata[p] = 0,
                                !.subs = @ \ OfPeer(st.subs, p), !.binds = @ \ OfPeer(st.binds, p),
                                !.csub = @ \ OfPeer(st.csub, p), !.cbind = @ \ OfPeer(st.cbind, p)],
                    NoOut,
-                   RemEvents("sub", OfPeer(st.subs, p)) \cup RemEvents("bind", OfPeer(st.binds, p))
+                   RemEventsSt(st, "sub", OfPeer(st.subs, p)) \cup RemEventsSt(st, "bind", OfPeer(st.binds, p))
                       \cup {Ev("dev", "remove", p, "", "", "")},
                    "ok", Ideal) }
 
@@ -166,22 +197,67 @@ EntRemOut(st, a) ==
     IF ~Discovered(st, p) THEN { Outcome(st, NoOut, {}, "ok", Ideal) }
     ELSE IF e \notin st.known[p]
     THEN { Outcome(st, OutTo(p, Ack(a, "NM", "nm")), {}, "ok", Ideal) }
-    ELSE { Outcome([st EXCEPT !.known[p] = @ \ {e}, !.rdata[p] = IF e = "1" THEN 0 ELSE @,
-                               !.subs = @ \ OfPeerEnt(st.subs, p, e), !.binds = @ \ OfPeerEnt(st.binds, p, e),
-                               !.csub = @ \ COfPeerEnt(st.csub, p, e), !.cbind = @ \ COfPeerEnt(st.cbind, p, e)],
-                   OutTo(p, Ack(a, "NM", "nm")),
-                   {Ev("ent", "remove", p, e, "", "")} \cup RemEvents("sub", OfPeerEnt(st.subs, p, e))
-                      \cup RemEvents("bind", OfPeerEnt(st.binds, p, e)),
-                   "ok", Ideal) }
+    ELSE { Outcome(DropEnt(st, p, e), OutTo(p, Ack(a, "NM", "nm")), DropEvents(st, p, e), "ok", Ideal) }
 
-\* partial discovery notification: entity e of peer p added (with its features)
+\* partial discovery notification: entity e of peer p added (with its catalogue features, version 1)
 EntAddOut(st, a) ==
     LET p == a.p  e == a.e IN
     IF ~Discovered(st, p) THEN { Outcome(st, NoOut, {}, "ok", Ideal) }
-    ELSE { Outcome([st EXCEPT !.known[p] = @ \cup {e}, !.rdata[p] = IF e = "1" THEN 0 ELSE @],
+    ELSE { Outcome(SetEnt(st, p, e, CatFeats(e), 1),
                    OutTo(p, Ack(a, "NM", "nm")),
                    IF e \in st.known[p] THEN {} ELSE {Ev("ent", "add", p, e, "", "")},
                    "ok", Ideal) }
+
+(* General announcement (C06).  a = [a |-> "ann", p, kind, items, ack]:                  *)
+(*   kind "reply" | "partial" | "full"; items = sequence of [e, chg, fs, v] in message    *)
+(*   order; chg "added" | "removed" (only partial notifications carry a state change;     *)
+(*   in a reply / full notification every entry describes an existing entity).            *)
+(*   Entity "0" with the node management feature is part of every reply and full          *)
+(*   notification (left implicit here; without it the peer is wiped: a C05 input).        *)
+RECURSIVE ApplyItems(_, _, _, _)
+ApplyItems(st, p, items, i) ==
+    IF i > Len(items) THEN [st |-> st, ev |-> {}]
+    ELSE LET it == items[i]
+             r  == IF it.chg = "added"
+                   THEN [st |-> SetEnt(st, p, it.e, it.fs, it.v),
+                         ev |-> IF it.e \in st.known[p] THEN {} ELSE {Ev("ent", "add", p, it.e, "", "")}]
+                   ELSE IF it.e \in st.known[p]
+                   THEN [st |-> DropEnt(st, p, it.e), ev |-> DropEvents(st, p, it.e)]
+                   ELSE [st |-> st, ev |-> {}]
+             rest == ApplyItems(r.st, p, items, i + 1)
+         IN [st |-> rest.st, ev |-> r.ev \cup rest.ev]
+
+SelectItems(items, keep(_)) == SelectSeq(items, keep)
+ItemEnts(items) == {items[i].e : i \in DOMAIN items}
+
+AnnOut(st, a) ==
+    LET p == a.p IN
+    \* (notifications are applied also before the first discovery reply: "any sequence")
+    IF p \notin st.conn THEN { Outcome(st, NoOut, {}, "ok", Ideal) }
+    ELSE IF a.kind = "reply" THEN
+         LET r == ApplyItems(st, p, a.items, 1)
+             new0 == IF "0" \in st.known[p] THEN {} ELSE {Ev("ent", "add", p, "0", "", "")}
+         IN { Outcome([r.st EXCEPT !.addr = @ \cup {p}, !.known[p] = @ \cup {"0"},
+                                   !.csub = @ \cup {[k |-> "NM", p |-> p, r |-> "nm"]}],
+                      OutTo(p, Ack(a, "NM", "nm")),
+                      {Ev("dev", "add", p, "", "", "")} \cup new0 \cup r.ev, "ok", Ideal) }
+    ELSE IF a.kind = "partial" THEN
+         IF Len(a.items) = 0 THEN { Outcome(st, OutTo(p, {ResErr("NM", "nm")}), {}, "ok", Ideal) }
+         ELSE LET r == ApplyItems(st, p, a.items, 1)
+              IN { Outcome(r.st, OutTo(p, Ack(a, "NM", "nm")), r.ev, "ok", Ideal) }
+    ELSE \* full notification: the announced list is the complete list of entities.
+         \* Not determined by any property (both allowed): whether the entities that stay get their features
+         \* refreshed, and whether a notification that changes nothing is acknowledged or rejected.
+         LET IsNew(it)  == it.e \notin st.known[p]
+             IsOld(it)  == it.e \in st.known[p]
+             gone       == (st.known[p] \ {"0"}) \ ItemEnts(a.items)
+             goneItems  == SetToSeq({[e |-> e, chg |-> "removed", fs |-> {}, v |-> 0] : e \in gone})
+             diffOnly   == ApplyItems(st, p, SelectItems(a.items, IsNew) \o goneItems, 1)
+             refreshed  == ApplyItems(st, p, a.items \o goneItems, 1)
+             nochange   == gone = {} /\ \A i \in DOMAIN a.items : IsOld(a.items[i])
+         IN { Outcome(diffOnly.st, OutTo(p, Ack(a, "NM", "nm")), diffOnly.ev, "ok", Ideal),
+              Outcome(refreshed.st, OutTo(p, Ack(a, "NM", "nm")), refreshed.ev, "ok", Ideal) }
+            \cup (IF nochange THEN { Outcome(st, OutTo(p, {ResErr("NM", "nm")}), {}, "ok", Ideal) } ELSE {})
 
 ---------------------------------------------------------------------------
 (* Registries: subscription and binding calls from a peer.                 *)
@@ -356,6 +432,7 @@ Outcomes(st, a) ==
       [] a.a = "disconnect" -> DisconnectOut(st, a)
       [] a.a = "entrem"     -> EntRemOut(st, a)
       [] a.a = "entadd"     -> EntAddOut(st, a)
+      [] a.a = "ann"        -> AnnOut(st, a)
       [] a.a = "sub"        -> SubOut(st, a)
       [] a.a = "unsub"      -> UnsubOut(st, a)
       [] a.a = "bind"       -> BindOut(st, a)
@@ -410,6 +487,19 @@ WriteArgsF(st) == {x \in WriteArgs(st) :
                      /\ IF x.s \in LocalNames THEN x.fn \in TypeFns[LF[x.s].type] ELSE x.fn = "limit"
                      /\ x.fel = "other" => x.fn \in {"limit", "ldesc"}}
 
+\* announcements: per entity one option; items in the order 1, 1.1, 2 (partial notifications also reversed)
+AnnOpts(kd) == IF "ann" \in Tiny THEN (IF kd = "partial" THEN {"absent", "full1", "removed"} ELSE {"absent", "full1"})
+               ELSE IF kd = "partial" THEN {"absent", "full1", "sub2", "removed"} ELSE {"absent", "full1", "full2", "sub2"}
+AnnItem(e, opt) == CASE opt = "full1"   -> [e |-> e, chg |-> "added", fs |-> CatFeats(e), v |-> 1]
+                     [] opt = "full2"   -> [e |-> e, chg |-> "added", fs |-> CatFeats(e), v |-> 2]
+                     [] opt = "sub2"    -> [e |-> e, chg |-> "added", fs |-> {CHOOSE f \in CatFeats(e) : TRUE}, v |-> 2]
+                     [] opt = "removed" -> [e |-> e, chg |-> "removed", fs |-> {}, v |-> 0]
+AnnSeq(o1, o2, o3) == (IF o1 = "absent" THEN << >> ELSE <<AnnItem("1", o1)>>)
+                      \o (IF o2 = "absent" THEN << >> ELSE <<AnnItem("1.1", o2)>>)
+                      \o (IF o3 = "absent" THEN << >> ELSE <<AnnItem("2", o3)>>)
+AnnItemSeqs(kd) == {AnnSeq(o1, o2, o3) : o1 \in AnnOpts(kd), o2 \in AnnOpts(kd), o3 \in AnnOpts(kd)}
+                   \cup (IF kd = "partial" THEN {Reverse(AnnSeq(o1, o2, o3)) : o1 \in AnnOpts(kd), o2 \in AnnOpts(kd), o3 \in AnnOpts(kd)} ELSE {})
+
 Inputs(st) ==
     On("connect",    {[a |-> "connect", p |-> p] : p \in Peers \ st.conn})
     \cup On("discover", {[a |-> "discover", p |-> p, ents |-> es, ack |-> k] :
@@ -418,6 +508,9 @@ Inputs(st) ==
     \cup On("disconnect", {[a |-> "disconnect", p |-> p] : p \in (IF R("disconnect") THEN Peers ELSE st.conn)})
     \cup On("entrem", {[a |-> "entrem", p |-> p, e |-> e, dev |-> d, ack |-> k] : p \in DiscP(st), e \in AnnEnts, d \in DevVar("entrem"), k \in Acks("entrem")})
     \cup On("entadd", {[a |-> "entadd", p |-> p, e |-> e, dev |-> d, ack |-> k] : p \in DiscP(st), e \in AnnEnts, d \in DevVar("entadd"), k \in Acks("entadd")})
+    \cup On("ann",    UNION {{[a |-> "ann", p |-> p, kind |-> kd, items |-> it, dev |-> d, ack |-> k] :
+                                  it \in AnnItemSeqs(kd), d \in DevVar("ann"), k \in Acks("ann")}
+                               : p \in st.conn, kd \in {"reply", "partial", "full"}})
     \cup On("sub",    RegCallsF(st, "sub"))
     \cup On("bind",   RegCallsF(st, "bind"))
     \cup On("unsub",  DelCallsF(st, "unsub"))
@@ -451,9 +544,11 @@ Inputs(st) ==
 
 \* C09: at most one binding per server feature
 AtMostOneBindingPerServer(st) == \A b1, b2 \in st.binds : b1.s = b2.s => b1 = b2
-\* C08/C09: registry entries name announced features of connected peers
+\* C08/C09: registry entries name features of known entities of connected peers (a re-announcement of an entity
+\* with fewer features does not cancel the entries of the features it no longer lists - no property says it should)
 RegistryWellFormed(st) ==
-    \A e \in st.subs \cup st.binds : RKnown(st, e.p, e.c) /\ LF[e.s].role \in {"server", "special"}
+    \A e \in st.subs \cup st.binds : /\ e.p \in st.conn /\ RF[e.c].ent \in st.known[e.p]
+                                       /\ LF[e.s].role \in {"server", "special"}
 \* C10: nothing refers to a peer that is not connected or an entity that is not known
 NoDangling(st) ==
     /\ \A e \in st.subs \cup st.binds : e.p \in st.conn /\ RF[e.c].ent \in st.known[e.p]
@@ -464,7 +559,7 @@ OutKinds(o, p, k) == {d \in o.out[p] : d.k = k}
 Responses(o, p)   == OutKinds(o, p, "result") \cup OutKinds(o, p, "reply")
 
 \* C01: at most one result per inbound datagram, addressed to its source, and only to the sender
-InboundKinds == {"discover", "entrem", "entadd", "sub", "unsub", "bind", "unbind", "listsubs", "listbinds", "write", "read", "recv"}
+InboundKinds == {"discover", "entrem", "entadd", "ann", "sub", "unsub", "bind", "unbind", "listsubs", "listbinds", "write", "read", "recv"}
 ResponseDiscipline(st, a, o) ==
     a.a \in InboundKinds =>
         /\ \A q \in Peers \ {a.p} : Responses(o, q) = {}
@@ -507,15 +602,32 @@ DeleteExact(st, a, o) ==
     /\ a.a = "unbind" => /\ o.st.binds = st.binds \ {Entry(a.p, a.c, a.s)}
                          /\ o.st.subs = st.subs
 
+\* C06: an announcement changes the tree of that peer only; every entity that appeared / disappeared has its event;
+\* registry entries and client references disappear exactly with their entity
+AnnouncementExact(st, a, o) ==
+    a.a \in {"ann", "entadd", "entrem", "discover"} =>
+        LET p == a.p
+            appeared == o.st.known[p] \ st.known[p]
+            vanished == st.known[p] \ o.st.known[p]
+            mentionedRemoved == IF a.a = "ann" THEN {a.items[i].e : i \in {j \in DOMAIN a.items : a.items[j].chg = "removed"}}
+                                ELSE IF a.a = "entrem" THEN {a.e} ELSE {}
+        IN /\ \A e \in appeared : Ev("ent", "add", p, e, "", "") \in o.ev
+           /\ \A e \in vanished : Ev("ent", "remove", p, e, "", "") \in o.ev
+           /\ \A x \in st.subs \ o.st.subs   : x.p = p /\ (RF[x.c].ent \in vanished \/ RF[x.c].ent \in mentionedRemoved)
+           /\ \A x \in st.binds \ o.st.binds : x.p = p /\ (RF[x.c].ent \in vanished \/ RF[x.c].ent \in mentionedRemoved)
+           /\ \A x \in st.csub \ o.st.csub   : x.p = p /\ (RF[x.r].ent \in vanished \/ RF[x.r].ent \in mentionedRemoved)
+           /\ \A x \in st.cbind \ o.st.cbind : x.p = p /\ (RF[x.r].ent \in vanished \/ RF[x.r].ent \in mentionedRemoved)
+           /\ o.st.subs \subseteq st.subs /\ o.st.binds \subseteq st.binds
+
 \* C10: teardown of p leaves every other peer's state untouched
 OtherPeers(set, p) == {e \in set : e.p # p}
 TeardownIsolated(st, a, o) ==
-    a.a \in {"disconnect", "entrem"} =>
+    a.a \in {"disconnect", "entrem", "ann"} =>
         /\ OtherPeers(o.st.subs, a.p)  = OtherPeers(st.subs, a.p)
         /\ OtherPeers(o.st.binds, a.p) = OtherPeers(st.binds, a.p)
         /\ OtherPeers(o.st.csub, a.p)  = OtherPeers(st.csub, a.p)
         /\ OtherPeers(o.st.cbind, a.p) = OtherPeers(st.cbind, a.p)
-        /\ \A q \in Peers \ {a.p} : o.st.known[q] = st.known[q] /\ o.out[q] = {}
+        /\ \A q \in Peers \ {a.p} : o.st.known[q] = st.known[q] /\ o.st.feats[q] = st.feats[q] /\ o.out[q] = {}
         /\ o.st.data = st.data
         /\ \A e \in o.ev : e.p = a.p
 DisconnectComplete(st, a, o) ==
@@ -526,8 +638,8 @@ DisconnectComplete(st, a, o) ==
         /\ o.out[a.p] = {}
 \* C10: one removal event per registry entry that disappears, in every step
 RemovalEventsExact(st, a, o) ==
-    /\ {e \in o.ev : e.t = "sub"  /\ e.chg = "remove"} = RemEvents("sub",  st.subs \ o.st.subs)
-    /\ {e \in o.ev : e.t = "bind" /\ e.chg = "remove"} = RemEvents("bind", st.binds \ o.st.binds)
+    /\ {e \in o.ev : e.t = "sub"  /\ e.chg = "remove"} = RemEventsSt(st, "sub",  st.subs \ o.st.subs)
+    /\ {e \in o.ev : e.t = "bind" /\ e.chg = "remove"} = RemEventsSt(st, "bind", st.binds \ o.st.binds)
 
 StepProps(st, a, o) ==
     /\ ResponseDiscipline(st, a, o)
@@ -538,6 +650,7 @@ StepProps(st, a, o) ==
     /\ WriteAppliedIfGate(st, a, o)
     /\ FanoutExact(st, a, o)
     /\ DeleteExact(st, a, o)
+    /\ AnnouncementExact(st, a, o)
     /\ TeardownIsolated(st, a, o)
     /\ DisconnectComplete(st, a, o)
     /\ RemovalEventsExact(st, a, o)
